@@ -60,6 +60,28 @@ PROPS["C09"] = dict(
     assumptions=ASSUME_COMMON + ["canonical numbers are in [0,1) as libstdc++ guarantees (it clamps 1.0)"],
 )
 
+PROPS["C13"] = dict(
+    units=[dict(name="c13", src="props/c13.cpp", fuzz=dict(seconds=60))],
+    rule="case = numeric type x sequence of 0..12 results made with create_result (calls 2..10^6, estimates of either "
+         "sign over 14 (float) / 40 decades, relative errors 10^-k..10^3, results without non-zero calls), a generated "
+         "permutation and the reversal, optionally 1-2 distributions with 1..12 bins; non-trivial: >= 2 results whose "
+         "variances differ by > 10 %, or a result without non-zero calls, or distributions; distinct = distinct "
+         "description (type + all results)",
+    quick=dict(shards=8, cases=4000),
+    thorough=dict(shards=16, cases=300000),
+    floors={"has-empty-result": 0.1, "with-distributions": 0.1, "no-results": 0.01, "one-result": 0.03},
+    level_text="generated result sequences compared with a long-double reference of the documented formulas "
+               "(tolerance 16 m eps scaled by the conditioning of the (value, error) <-> (sum, sumsq) conversion), "
+               "plus the laws: bounds, error not larger than any input error, order independence, identity / empty "
+               "cases of equal weighting, chi^2/dof >= 0 / 0 / +inf, per-bin combination bit-identical to combining "
+               "that bin's results alone; exploration over generated inputs",
+    level_note="trusted: the long double model in props/c13.cpp; inputs are what the library reads back from "
+               "create_result (value(), variance()), cases whose error tolerance exceeds 25 % are labelled "
+               "ill-conditioned and only judged on estimate and counters",
+    technique="rapidcheck + libFuzzer over choice tapes; reference model and algebraic laws",
+    assumptions=ASSUME_COMMON,
+)
+
 NOT_APPLICABLE = {}
 
 ENGINES = [
